@@ -53,13 +53,16 @@ class StackingForecaster(
 
         # split training series into training set to fit forecasters and
         # validation set to fit meta-learner
-        cv = SingleWindowSplitter(fh=self.fh.to_relative(self.cutoff))
+        fh_relative = self.fh.to_relative(self.cutoff)
+        cv = SingleWindowSplitter(fh=fh_relative)
         train_window, test_window = next(cv.split(y))
         y_fcst = y.iloc[train_window]
         y_meta = y.iloc[test_window].values
 
-        # fit forecasters on training window
-        self._fit_forecasters(forecasters, y_fcst, fh=self.fh, X=X)
+        # fit forecasters on training window; the steps ahead are counted from the
+        # end of that window, so that an absolute horizon also yields forecasts of
+        # the validation window
+        self._fit_forecasters(forecasters, y_fcst, fh=fh_relative, X=X)
         X_meta = np.column_stack(self._predict_forecasters(X))
 
         # fit final regressor on on validation window
